@@ -612,7 +612,25 @@ def _walk_types(p: Proto):
             yield from rec_t(f, "type")
 
 
+def _has_local_dotted(p: Proto) -> bool:
+    """does the schema refer to one of its own nested definitions by a dotted path?  Rewrites that move or rename
+    nested definitions would have to re-derive such paths; they leave these schemas alone (rename follows them)."""
+    imp_names = {im.as_name or im.proto.name for im in p.imports}
+    for h, a in _walk_types(p):
+        t = getattr(h, a)
+        if isinstance(t, TRef) and t.text_ and "." in t.text_ and t.text_.split(".")[0] not in imp_names:
+            return True
+    return False
+
+
 def rw_rename(p: Proto) -> bool:
+    # dotted references written in the schema follow the renaming of every component (messages and nested enums get the
+    # suffix below); import-qualified texts are left alone (the imported file is not renamed)
+    imp_names = {im.as_name or im.proto.name for im in p.imports}
+    for h, a in _walk_types(p):
+        t = getattr(h, a)
+        if isinstance(t, TRef) and t.text_ and "." in t.text_ and t.text_.split(".")[0] not in imp_names:
+            t.text_ = ".".join(part + "Rn" for part in t.text_.split("."))
     for d in p.defs:
         if isinstance(d, (Alias, Enum, Const)):
             d.name = d.name + "Rn"
@@ -720,6 +738,8 @@ def rw_alias_inline(p: Proto) -> bool:
 def rw_nest(p: Proto) -> bool:
     """move a top-level message/enum that is referenced from exactly one top-level message
     (and from nothing else) into that message"""
+    if _has_local_dotted(p):
+        return False
     users: Dict[int, List[Any]] = {}
     for d in p.defs:
         for x in _deps(d):
@@ -742,6 +762,8 @@ def rw_nest(p: Proto) -> bool:
 
 
 def rw_hoist(p: Proto) -> bool:
+    if _has_local_dotted(p):
+        return False
     names = {d.name for d in p.defs}
     for m in p.defs:
         if isinstance(m, Message) and m.nested:
@@ -760,6 +782,8 @@ def rw_hoist(p: Proto) -> bool:
 
 
 def rw_to_import(p: Proto) -> bool:
+    if _has_local_dotted(p):
+        return False
     if p.imports:
         return False
     def uses_const(d: Any) -> bool:
@@ -798,9 +822,12 @@ def rw_const_expr(p: Proto) -> bool:
     for h, a in _walk_types(p):
         t = getattr(h, a)
         if isinstance(t, TArray) and not t.cap_text:
-            if k % 3 == 0:
+            if k % 4 == 0:
                 c = Const(f"CAP_{k}", f"({t.cap} + {k + 3}) * 2 / 2 - {k + 3}", t.cap)
-            elif k % 3 == 2:
+            elif k % 4 == 3:
+                # chains without parentheses: left to right, * and / before + and -
+                c = Const(f"CAP_{k}", f"{t.cap} * 12 / 3 / 4 + 96 / 8 / 2 - 2 * 3 + 7 - 4 - 3", t.cap)
+            elif k % 4 == 2:
                 # exact integer division far beyond what a double represents (2^53 + 1 is odd)
                 c = Const(f"CAP_{k}", f"({t.cap} + 9007199254740993) / 1 - 9007199254740993 + 36028797018963969 / 36028797018963969 - 1", t.cap)
             else:
@@ -827,6 +854,8 @@ def rw_renumber(p: Proto) -> bool:
 def rw_rename_shadow(p: Proto) -> bool:
     """rename a nested enum/message to the name of a file-level definition that its host does
     not reference (legal shadowing: the nested one must keep being used inside the host)"""
+    if _has_local_dotted(p):
+        return False
     tops = {d.name: d for d in p.defs if isinstance(d, (Enum, Message, Alias))}
     for host in [d for d in p.defs if isinstance(d, Message)]:
         used = {id(x) for x in _deps(host)}
@@ -879,6 +908,15 @@ def rw_bases() -> List[Case]:
     item = Message("Item", [Field(TBase("uint", 11), "w", 1), Field(TBase("bool"), "b", 2)])
     packet = Message("Packet", [Field(TRef(mode), "mode", 1), Field(TArray(TRef(mode), 2), "modes", 2), Field(TRef(item), "item", 3), Field(TBase("uint", 4), "t", 4)], nested=[mode, item])
     bases.append(case_of("shadowable", Proto("shadowable", [kind, sub, other, packet]), ("shadow",)))
+    # three levels of nesting and a coincidence of inner names: Link.Port.Stat next to a file-level Port with its own Stat
+    # (different layouts); only the FULL chain of enclosing names keeps the generated definitions apart
+    st_a = Message("Stat", [Field(TBase("uint", 5), "up", 1), Field(TBase("int", 7), "delta", 2)])
+    port_a = Message("Port", [Field(TRef(st_a), "stat", 1), Field(TBase("uint", 3), "lane", 2)], nested=[st_a])
+    link = Message("Link", [Field(TRef(port_a), "port", 1), Field(TRef(st_a, "Port.Stat"), "last", 2)], nested=[port_a])
+    st_b = Message("Stat", [Field(TBase("uint", 11), "count", 1), Field(TBase("bool"), "ok", 2)])
+    port_b = Message("Port", [Field(TRef(st_b), "stat", 1), Field(TBase("int", 4), "bias", 2)], nested=[st_b])
+    top = Message("Top", [Field(TRef(link), "link", 1), Field(TRef(port_b), "port", 2), Field(TRef(st_b, "Port.Stat"), "stat", 3), Field(TBase("uint", 2), "t", 4)])
+    bases.append(case_of("nest_coincide", Proto("nest_coincide", [link, port_b, top]), ("nest", "nested_decl"), only=["Top", "Link"]))
     return bases
 
 
